@@ -11,7 +11,7 @@ ENTRY_POINTS = ('spawn', 'spawn_owning', 'spawn_default', 'spawn_on_stream', 'bu
                 'build_recreate_spawn', 'build_non_restartable_spawn', 'build_stream_spawn', 'build_bounded_stream_spawn',
                 'build_stream_spawn_owning', 'from_registry', 'build_register')
 # entry points used by the restart-strategy programs (C07) only
-MORE_ENTRY_POINTS = ('build_recreate_spawn_owning', 'build_non_restartable_spawn_owning')
+MORE_ENTRY_POINTS = ('build_recreate_spawn_owning', 'build_non_restartable_spawn_owning', 'build_timeout_spawn_owning')
 # the strategy the user asked for, by the meaning of the builder chain (what the oracle expects)
 CONFIGURED = {'build_recreate_spawn': 'RecreateFromDefault', 'build_recreate_spawn_owning': 'RecreateFromDefault',
               'build_non_restartable_spawn': 'NonRestartable', 'build_non_restartable_spawn_owning': 'NonRestartable',
@@ -48,6 +48,10 @@ class EntryProgram(RegistryProgram):
 
         def builder(s):
             s, b = self.call(s, 'build', [actor])
+            if ep.startswith('build_timeout'):
+                # .timeout(T ticks) on the base builder (fail_on_timeout stays false)
+                ticks = getattr(self, 'timeout_ticks', 1)
+                s, b = self.call(s, 'BaseActorBuilder::<A, P>::timeout', [b, VAgg(name='Duration', extra={'ticks': ticks})])
             return s, b
         if ep == 'spawn':
             s2, a = self.call(st, '<Self as Spawnable<S>>::spawn', [actor]); yield done(s2, a)
